@@ -130,24 +130,24 @@ impl Instance {
                 scale.flags & Scale::NO_ADVANCE == 0,
                 hinted_metrics.edge_metrics,
             ) {
-                let old_rsb = pp2x - edge_metrics.right_opos;
+                let old_rsb = pp2x.wrapping_sub(edge_metrics.right_opos);
                 let old_lsb = edge_metrics.left_opos;
                 let new_lsb = edge_metrics.left_pos;
-                let mut pp1x_uh = new_lsb - old_lsb;
-                let mut pp2x_uh = edge_metrics.right_pos + old_rsb;
+                let mut pp1x_uh = new_lsb.wrapping_sub(old_lsb);
+                let mut pp2x_uh = edge_metrics.right_pos.wrapping_add(old_rsb);
                 if old_lsb < 24 {
-                    pp1x_uh -= 8;
+                    pp1x_uh = pp1x_uh.wrapping_sub(8);
                 }
                 if old_rsb < 24 {
-                    pp2x_uh += 8;
+                    pp2x_uh = pp2x_uh.wrapping_add(8);
                 }
                 pp1x = pix_round(pp1x_uh);
                 pp2x = pix_round(pp2x_uh);
                 if pp1x >= new_lsb && old_lsb > 0 {
-                    pp1x -= 64;
+                    pp1x = pp1x.wrapping_sub(64);
                 }
                 if pp2x <= edge_metrics.right_pos && old_rsb > 0 {
-                    pp2x += 64;
+                    pp2x = pp2x.wrapping_add(64);
                 }
             } else {
                 pp1x = pix_round(pp1x);
@@ -159,7 +159,7 @@ impl Instance {
         }
         if pp1x != 0 {
             for point in &mut outline.points {
-                point.x -= pp1x;
+                point.x = point.x.wrapping_sub(pp1x);
             }
         }
         let advance = if !is_light
@@ -167,7 +167,7 @@ impl Instance {
         {
             fixed_mul(h_advance, scale.x_scale)
         } else if h_advance != 0 {
-            pp2x - pp1x
+            pp2x.wrapping_sub(pp1x)
         } else {
             0
         };
